@@ -97,6 +97,11 @@ func FName(f *ssa.Function) string {
 // BaseName returns "processSpan" for methods/functions, "processSpan$1" for closures.
 func BaseName(f *ssa.Function) string {
 	s := f.Name()
+	if i := strings.Index(s, "["); i > 0 {
+		// generic instantiation: name of the origin (closures keep their $n suffix)
+		j := strings.LastIndex(s, "]")
+		s = s[:i] + s[j+1:]
+	}
 	return s
 }
 
